@@ -427,6 +427,30 @@ fn run_miri_tier(id: &str, n: usize, max_tape: usize, seed: u64) -> Result<(u64,
             ),
             (None, None) => return Err(format!("miri part {} ended without a verdict: {}", path.display(), stderr.lines().rev().take(6).collect::<Vec<_>>().join(" | "))),
         };
+        // narrow the failing part down to one history
+        let mut culprit: Option<Vec<u16>> = None;
+        for (k, t) in tapes.iter().enumerate() {
+            let single = work.join(format!("single-{k}.txt"));
+            let _ = std::fs::write(&single, t.iter().map(|v| v.to_string()).collect::<Vec<_>>().join(" "));
+            let o = std::process::Command::new("cargo")
+                .current_dir(&crate_dir)
+                .args(["+nightly", "miri", "run", "-q", "--"])
+                .arg(&single)
+                .arg(id)
+                .env("RUSTFLAGS", "--cap-lints warn")
+                .env("MIRIFLAGS", "-Zmiri-disable-isolation")
+                .output();
+            if let Ok(o) = o {
+                if !String::from_utf8_lossy(&o.stdout).contains("MIRI-OK") {
+                    culprit = Some(t.clone());
+                    break;
+                }
+            }
+        }
+        let tapes: Vec<Vec<u16>> = match culprit {
+            Some(t) => vec![t],
+            None => tapes.clone(),
+        };
         vio.push(ViolationRecord {
             property: id.to_string(),
             stage: "miri".to_string(),
